@@ -18,9 +18,11 @@ func quiesce(s *Source) (int, int, int) {
 	}
 	last := int64(-1)
 	stable := 0
-	for i := 0; i < 4000 && stable < 6; i++ {
-		runtime.Gosched()
-		time.Sleep(150 * time.Microsecond)
+	for i := 0; i < 40000 && stable < 6; i++ {
+		// spin-wait ~80us (time.Sleep has millisecond granularity here); the producer runs on another core
+		for t0 := time.Now(); time.Since(t0) < 80*time.Microsecond; {
+			runtime.Gosched()
+		}
 		c := atomic.LoadInt64(&s.calls)
 		if c == last {
 			stable++
@@ -391,6 +393,44 @@ func genGrid(tier string, r *Rng, emit func(Case)) {
 	}
 }
 
+// genLongScans: infinite and long finite counted sources read far out (forward scans touching the frontier, single far
+// jumps), so that read-ahead that grows with the position shows up against the bound.
+func genLongScans(tier string, r *Rng, emit func(Case)) {
+	n := 9
+	if tier == "thorough" {
+		n = 60
+	}
+	for i := 0; i < n; i++ {
+		ver := allVers[i%3]
+		var ops []toks
+		far := r.Pick([]int{1700, 2600, 5200})
+		switch i % 3 {
+		case 0: // scan with At
+			for p := 0; p <= far; p += r.Pick([]int{1, 3, 7}) {
+				ops = append(ops, toks{"AT", "0", itoa(p)})
+				if p%400 == 0 {
+					ops = append(ops, toks{"CNT"})
+				}
+			}
+		case 1: // a push / pull run over the frontier
+			ops = append(ops, toks{"RUN", "0", "A", itoa(far)}, toks{"CNT"}, toks{"WS", "0", itoa(far / 2)}, toks{"RUN", "1", "V", itoa(far)}, toks{"CNT"})
+		default: // far jumps
+			ops = append(ops, toks{"AT", "0", itoa(far)}, toks{"CNT"}, toks{"AT", "0", itoa(far * 2)}, toks{"CNT"})
+		}
+		ops = append(ops, toks{"CNT"})
+		var t toks
+		t.s("G")
+		t.ints(nil)
+		t.ints(randDigits(r, r.Range(1, 5)))
+		t.i(1)
+		t.i(len(ops))
+		for _, o := range ops {
+			t = append(t, o...)
+		}
+		emit(Case{Ver: ver, Op: "Hist", Args: t})
+	}
+}
+
 func init() {
 	ops := map[string]runner{"Hist": runHist}
 	register("C04", func(tier string, r *Rng, emit func(Case)) {
@@ -408,6 +448,14 @@ func init() {
 		}
 		genGrid(tier, r, emit)
 		genHist("chain", n, r, emit)
+	}, ops)
+	register("C06", func(tier string, r *Rng, emit func(Case)) {
+		n := 600
+		if tier == "thorough" {
+			n = 8000
+		}
+		genHist("count", n, r, emit)
+		genLongScans(tier, r, emit)
 	}, ops)
 	register("C17", func(tier string, r *Rng, emit func(Case)) {
 		n := 1500
